@@ -420,6 +420,7 @@ def diff_bounded(unit_name, root, tier, seed):
     n = 120 if tier == 'quick' else 1500
     jobs = [{'expr': f'_c08_diff({seed}, {n})'}]
     real = rp.run_real(jobs, prelude=DIFF_PRELUDE, root=root)[0]
+    rp.check_driver(real)
     if not real['ok']:
         return {'expr': jobs[0]['expr'], 'real': real, 'failed_clause': 'bounded driver raised: ' + str(real.get('exc'))}, 0
     d = rp.repr_to_data(real['repr'])
